@@ -4,6 +4,8 @@
 # baseline suite, runs its demonstration with and without it, then runs the given checks
 # (default: the property's own) against it. Removes the worktree afterwards.
 export GOFLAGS=-mod=mod GOPROXY=off GOSUMDB=off GOTOOLCHAIN=local
+# the suite and the demonstrations listen on fixed TCP ports: give each run its own network namespace
+gotest() { if unshare -rn true 2>/dev/null; then unshare -rn sh -c "ip link set lo up; go test $*"; else go test "$@"; fi; }
 PROP=$1; DIFF=$2; DEMO=$3; DEMODIR=${4:-.}; shift 4
 CHECKS=${@:-$PROP}
 WT=$(mktemp -d /tmp/mutwt-XXXXXX); rmdir $WT
@@ -11,13 +13,13 @@ git -C /repo worktree add -q --detach $WT HEAD || exit 2
 trap "git -C /repo worktree remove --force $WT >/dev/null 2>&1" EXIT
 cd $WT
 if [ -n "$DEMO" ]; then
-  cp $DEMO $WT/$DEMODIR/ && (go test -vet=off -count=1 -run "$(grep -ho 'func Test[A-Za-z0-9_]*' $DEMO | sed 's/func //' | paste -sd'|')" ./$DEMODIR 2>&1 | tail -3 | sed 's/^/  demo-without-change: /')
+  cp $DEMO $WT/$DEMODIR/ && (gotest -vet=off -count=1 -run "'$(grep -ho 'func Test[A-Za-z0-9_]*' $DEMO | sed 's/func //' | paste -sd'|')'" ./$DEMODIR 2>&1 | tail -3 | sed 's/^/  demo-without-change: /')
 fi
 git apply $DIFF 2>/dev/null || git apply -3 $DIFF || { echo "PATCH DOES NOT APPLY"; exit 2; }
 go build ./... 2>&1 | tail -3 || exit 2
-[ -n "$DEMO" ] && (go test -vet=off -count=1 -run "$(grep -ho 'func Test[A-Za-z0-9_]*' $DEMO | sed 's/func //' | paste -sd'|')" ./$DEMODIR 2>&1 | tail -3 | sed 's/^/  demo-with-change: /')
+[ -n "$DEMO" ] && (gotest -vet=off -count=1 -run "'$(grep -ho 'func Test[A-Za-z0-9_]*' $DEMO | sed 's/func //' | paste -sd'|')'" ./$DEMODIR 2>&1 | tail -3 | sed 's/^/  demo-with-change: /')
 [ -n "$DEMO" ] && rm -f $WT/$DEMODIR/$(basename $DEMO)
-echo "  suite-with-change: $(go test -vet=off -count=1 ./... 2>&1 | tr '\n' ' ')"
+echo "  suite-with-change: $(gotest -vet=off -count=1 ./... 2>&1 | tr '\n' ' ')"
 cd /verif
 OUT=${EVAL_OUT:-$(mktemp -d /tmp/evalout-XXXXXX)}
 for c in $CHECKS; do
